@@ -218,4 +218,40 @@ def bin1Offset (px : Pixels) (k : Nat) : Nat := px.countP (·.i < k)
 def chromPixelRange (chrom : List Nat) (px : Pixels) (c : Nat) : Nat × Nat :=
   (bin1Offset px (chromOffset chrom c), bin1Offset px (chromOffset chrom (c + 1)))
 
+/-! ### histories: what one process did before a run
+
+The results of balancing are stated for "repeated runs" and as a function of the data: a process may
+have visited other coolers, or an *earlier content of the same URI*, before the run.  A history is
+the list of things the process did; the only state a run may read is what the file system stores at
+the URI at that moment (`stored`), and a run leaves it unchanged. -/
+
+/-- one step of a process: a cooler with content `d` is written at `uri` (`create_cooler`, replacing
+whatever that URI held), or the cooler stored at `uri` is run through balancing / a split pipeline -/
+inductive Step (δ : Type) where
+  | write (uri : Nat) (d : δ)
+  | run (uri : Nat)
+deriving Repr
+
+/-- the file system after one more step: a write replaces the content of its URI, a run changes nothing -/
+def storeStep {δ : Type} (w : Nat → Option δ) : Step δ → Nat → Option δ
+  | .write u d => fun v => if v = u then some d else w v
+  | .run _ => w
+
+/-- nothing stored anywhere -/
+def emptyStore {δ : Type} : Nat → Option δ := fun _ => none
+
+/-- content of every URI after the history `h` (the last write there, `none` if never written) -/
+def stored {δ : Type} (h : List (Step δ)) : Nat → Option δ := h.foldl storeStep emptyStore
+
+/-- what the run steps of a history return, in order, starting from the store `w`: `eval` of the
+content stored at the URI at that moment (`none`: nothing there — no cooler to open) -/
+def observeFrom {δ ρ : Type} (eval : δ → ρ) (w : Nat → Option δ) : List (Step δ) → List (Option ρ)
+  | [] => []
+  | .write u d :: h => observeFrom eval (storeStep w (.write u d)) h
+  | .run u :: h => (w u).map eval :: observeFrom eval w h
+
+/-- the outputs of the run steps of a process that starts with nothing stored -/
+def observe {δ ρ : Type} (eval : δ → ρ) (h : List (Step δ)) : List (Option ρ) :=
+  observeFrom eval emptyStore h
+
 end Cooler.Split
